@@ -5,6 +5,25 @@ use std::io::Cursor;
 pub type U256 = [u64; 4];
 pub type U512 = [u64; 8];
 
+/// Verification hook (only with `--cfg gm_rs_verif`): lets a test harness replace the 32 candidate bytes
+/// drawn from the RNG (fixed-nonce vectors, out-of-range candidates) and observe the accepted scalars.
+#[cfg(gm_rs_verif)]
+pub mod verif_hooks {
+    use std::cell::RefCell;
+    use std::collections::VecDeque;
+    thread_local! {
+        static QUEUE: RefCell<VecDeque<[u8; 32]>> = RefCell::new(VecDeque::new());
+    }
+    pub fn push_candidate(b: [u8; 32]) {
+        QUEUE.with(|q| q.borrow_mut().push_back(b));
+    }
+    pub(crate) fn override_candidate(buf: &mut [u8; 32]) {
+        if let Some(b) = QUEUE.with(|q| q.borrow_mut().pop_front()) {
+            *buf = b;
+        }
+    }
+}
+
 pub(crate) const SM9_ZERO: U256 = [0, 0, 0, 0];
 pub(crate) const SM9_ONE: U256 = [1, 0, 0, 0];
 
@@ -15,6 +34,8 @@ pub fn sm9_random_u256(range: &U256) -> U256 {
     loop {
         let mut buf: [u8; 32] = [0; 32];
         rng.fill_bytes(&mut buf[..]);
+        #[cfg(gm_rs_verif)]
+        verif_hooks::override_candidate(&mut buf);
         ret = u256_from_be_bytes(&buf);
         if u256_cmp(&ret, range) < 0 && ret >= [1, 0, 0, 0] {
             break;
